@@ -272,6 +272,7 @@ class Judge:
                   'first wake-up of a routine played with quant 0 on a new '
                   'clock', 0)
         beats_set = False     # beats= since the last wake-up
+        wake_beat = a.B       # beat at which the routine last woke up
         pend = {}             # spawned probes: tag -> [expected beat, open]
         steps = {s[0]: s for s in log['steps']}
         for i, op in enumerate(prog['ops']):
@@ -310,6 +311,7 @@ class Judge:
                                      f'beats at tempo {a.T}', i):
                         return self.dis
                 beats_set = False
+                wake_beat = a.B
             elif k in ('tempo', 'etempo'):
                 a.set_tempo(op[1])
                 if not self.pair(f'{k}-discontinuity', post, a.B, a.S,
@@ -348,6 +350,12 @@ class Judge:
                     p['beats_changed'] = True
         self.final(log, a, m, n)
         self.pending(log, a, m, pend, n)
+        # the reference state (part of the history engine's state key)
+        self.model = [str(x) for x in (a.T, a.B, a.S, a.aB, a.aS, m.b0,
+                                       m.bpb)] + [
+            beats_set, str(wake_beat) if beats_set else None] + [
+            [t, str(p['beat']), p['tempo_changed'], p['beats_changed']]
+            for t, p in sorted(pend.items())]
         return self.dis
 
     def pending(self, log, a, m, pend, n):
@@ -529,11 +537,15 @@ def check_prog(prog, last_only=False, memo=False):
             if len(_MEMO) > 20000:
                 _MEMO.clear()
             log = execute(prog)
-            hit = _MEMO[mk] = (Judge(prog).run(log), log)
+            j = Judge(prog)
+            hit = _MEMO[mk] = (j.run(log), log)
+            log['model'] = getattr(j, 'model', None)
         dis, log = hit
     else:
         log = execute(prog)
-        dis = Judge(prog).run(log)
+        j = Judge(prog)
+        dis = j.run(log)
+        log['model'] = getattr(j, 'model', None)
     if last_only:
         n = len(prog['ops'])
         dis = [d for d in dis if d[4] >= n - 1]
@@ -680,6 +692,7 @@ class AffineSys:
         self.params = params
         self.hist = []
         self.log = None
+        self.last_kinds = []
 
     def ops(self):
         p = self.params
@@ -699,6 +712,7 @@ class AffineSys:
         prog = {'tempo': self.params['tempo'], 'ops': list(self.hist),
                 'final': FINAL_E2}
         dis, self.log = check_prog(prog, last_only=True, memo=True)
+        self.last_kinds = sorted(set(d[0] for d in dis))
         return dis
 
     def key(self):
@@ -712,6 +726,12 @@ class AffineSys:
             k.append(self.log.get('spawned') if self.log else None)
             k.append(sorted((self.log or {}).get('wakes', {}).items()))
         k.append(self._beats_set_since_wake())
+        # reference state, verdict of the last step and the non-trivial
+        # flag: merged histories must agree on them, so that the counts do
+        # not depend on which history reaches a state first
+        k.append((self.log or {}).get('model'))
+        k.append(self.last_kinds)
+        k.append(self._nt_state())
         return k
 
     def _beats_set_since_wake(self):
@@ -722,20 +742,26 @@ class AffineSys:
                 return True
         return False
 
-    def nontrivial(self):
-        """A re-basing operation (tempo/etempo/beats/meter) happens away
-        from the origin (after a yield), or two of them at one instant."""
+    def _nt_state(self):
+        """(non-trivial, a yield was seen, re-basing operations since the
+        last yield capped at 2): non-trivial = a re-basing operation
+        (tempo/etempo/beats/meter) happens away from the origin (after a
+        yield), or two of them happen at one instant."""
         seen_yield = False
         streak = 0
+        nt = False
         for h in self.hist:
             if h[0] == 'yield':
                 seen_yield = True
                 streak = 0
             elif h[0] in ('tempo', 'etempo', 'beats', 'bpb'):
-                streak += 1
+                streak = min(streak + 1, 2)
                 if seen_yield or streak >= 2:
-                    return True
-        return False
+                    nt = True
+        return [nt, seen_yield, streak]
+
+    def nontrivial(self):
+        return self._nt_state()[0]
 
     def outcome(self):
         f = (self.log or {}).get('final') or {}
@@ -833,7 +859,7 @@ def main(ctx):
     ctx.bounds['mode'] = 'nrt only (RT-virtual mode not available)'
     if ctx.tier == 'quick':
         grid, nsh = GRID_Q, 64
-        e2 = [('affine', AFF_Q, 4), ('affine', AFF_3, 4),
+        e2 = [('affine', AFF_Q, 5), ('affine', AFF_3, 4),
               ('pending', PEND_Q, 4)]
     else:
         grid, nsh = GRID_T, 256
